@@ -7,7 +7,6 @@ from sys import exit, stderr
 from time import time
 
 import click
-from jsonschema import ValidationError
 
 from ghedesigner import VERSION
 from ghedesigner.borehole import GHEBorehole
@@ -938,35 +937,34 @@ def run_manager_from_cli(input_path, output_directory, validate_only, convert):
     input_path = Path(input_path).resolve()
 
     if validate_only:
-        try:
-            validate_input_file(input_path)
-            logger.info("Valid input file.")
-            return 0
-        except ValidationError:
-            logger.error("Schema validation error. See previous error message for details.", file=stderr)
-            return 1
+        if validate_input_file(input_path) != 0:
+            logger.error("Schema validation error. See previous error message for details.")
+            exit(1)
+        logger.info("Valid input file.")
+        exit(0)
 
     if convert:
         if convert == "IDF":
             try:
                 write_idf(input_path)
                 print("Output converted to IDF objects.")
-                return 0
+                exit(0)
             except Exception as e:  # noqa: BLE001
-                logger.warning(f"Conversion to IDF error: {e}", file=stderr)
-                return 1
+                logger.warning(f"Conversion to IDF error: {e}")
+                exit(1)
 
         else:
-            print(f"Unsupported conversion format type: {format}", file=stderr)
-            return 1
+            print(f"Unsupported conversion format type: {convert}", file=stderr)
+            exit(1)
 
     if output_directory is None:
         print('Output directory path must be passed as an argument, aborting', file=stderr)
-        return 1
+        exit(1)
 
     output_path = Path(output_directory).resolve()
 
-    return _run_manager_from_cli_worker(input_path, output_path)
+    # click discards a command's return value: the status must be raised as the process exit code
+    exit(_run_manager_from_cli_worker(input_path, output_path))
 
 
 if __name__ == "__main__":
